@@ -237,4 +237,30 @@ def LSt.resetChannel {α : Type} (C : Cls α) (strCalls : Bool) (B : Str) (s : L
       | (s3, none) => (s3, .invalid)
       | (s3, some _) => (s3.assign (.chan c) s3.st.var.value true, .done)
 
+/-! ### `registry.close` while other threads use the tree
+
+`close` first builds the list of set nodes (`getValues`, no Python-level callbacks inside), then
+serializes them one by one; a thread switch can happen between any two of those steps, so commands
+of threaded plugins may assign or reset nodes in between.  `saveInterleaved` runs the operations
+`ops[i]` just before the `i`-th listed node is written. -/
+
+inductive TOp where
+  | set (w : Where) (text : Str)
+  | resetNet (n : Str)
+  | resetChan (n : Option Str) (c : Str)
+deriving Repr
+
+def LSt.applyOp {α : Type} (C : Cls α) (strCalls : Bool) (B : Str) (s : LSt α) : TOp → LSt α
+  | .set w text => (s.setText C strCalls B w text).1
+  | .resetNet n => (s.resetNetwork C strCalls B n).1
+  | .resetChan n c => (s.resetChannel C strCalls B n c).1
+
+/-- the listed nodes with the operations that run before each is written -/
+def LSt.saveInterleaved {α : Type} (C : Cls α) (strCalls : Bool) (B : Str) (s : LSt α) (ops : List (List TOp)) :
+    LSt α × List (Str × Option α) :=
+  (s.st.var.listed.zip (ops ++ List.replicate s.st.var.listed.length [])).foldl (fun acc wo =>
+      let s0 := wo.2.foldl (fun st op => st.applyOp C strCalls B op) acc.1
+      let (s1, r) : LSt α × Option α := if strCalls then s0.call C B wo.1 else (s0, s0.st.var.valueAt wo.1)
+      (s1, acc.2 ++ [(whereName B wo.1, r)])) (s, [])
+
 end C15
